@@ -37,12 +37,21 @@ BUILT = {
  "C13": ("property-based fault injection into call histories (one or two malformed arguments), differential twin for state preservation",
          "A valid generated prefix, one malformed call (channel counts, short buffers, mask length) through process_into_buffer / process / process_partial_into_buffer, then a suffix compared bit-for-bit with a twin that never saw the malformed call; expected variant and fields computed by the harness; all seven constructors with each invalid argument class. Exploration level.",
          "multi-fault calls may return any matching error; NaN ratios not asserted; input-shape faults through process_partial_into_buffer not asserted (documented padding)"),
+ "C14": ("property-based testing against an analytic reference: centroid of a generated band-limited event vs n*ratio + output_delay(), README recipe executed literally",
+         "Generated configurations of all seven types and a Gaussian event (wide enough for the passband) at a generated position; the stream is produced as the README prescribes (process loop, process_partial, flush with None); the output event must be centred at n*ratio + output_delay() within max(1,ratio)+1 frames and the trimmed clip must contain the whole event at n*ratio. Exploration level.",
+         "configurations without a passband are constructed away and counted"),
+ "C15": ("differential property-based testing of the kernels (AVX, SSE vs scalar vs an independently derived f64 table), NaN-poisoned surroundings for the read footprint, stream-level comparison of dispatch vs explicit kernels",
+         "Generated and forced (every sinc length 8..512, both sample types) kernel cases: AVX/SSE vs scalar within (L/8+4) eps sum|products|, scalar vs reference table within 64 eps, bit-identical finite results when everything outside [index,index+L) is NaN, every slice alignment; plus sinc resamplers built with new() and on each kernel fed the same stream. Exploration level.",
+         "NEON not executable on this host; dispatcher expected to select AVX here"),
  "C16": ("differential property-based testing: wrapper paths vs the core call on zero-padded input; Box<dyn VecResampler> vs direct",
          "Generated histories whose processing goes through process(), process_partial(_into_buffer)(Some/None) and, in half of the cases, through Box<dyn VecResampler>, against a twin executing process_into_buffer on the same frames zero-padded: every step bit-identical (values, counts, getters), empty vectors for masked channels, trailing flush calls included. Exploration level.",
          "VecResampler has no reset/set_chunk_size"),
  "C17": ("differential property-based testing: the same generated history on the f32 and the f64 instantiation",
          "Generated histories (all seven types, sinc tables up to 512x2048 points) are executed on an f32 and an f64 instance fed the same f32-representable samples: getters, returned counts and frames written must be equal at every step, outputs within 64 eps_f32 x peak. Exploration level.",
          "inputs rounded to f32; benign envelope for fixed-input ratio changes"),
+ "C18": ("schedule-exploring property-based testing: generated assignment of every call of up to 16 instances to up to 16 OS threads with barrier-released rounds; differential against the single-threaded run",
+         "Generated sets of 2..16 instances with histories and a schedule (thread per call, instances migrate between calls, all calls of a round released by a barrier, construction concurrent too); per-step results, getters and output bits of every instance must equal the single-threaded run. Exploration level: the harness controls placement and overlap, not instruction-level interleaving.",
+         "a race needing a narrow window can be missed"),
 }
 SECTION = {f"C{n:02d}": f"DESIGN.md §5/C{n:02d}" for n in range(1, 19)}
 ALL = [f"C{n:02d}" for n in range(1, 19)]
